@@ -563,47 +563,59 @@ fn exec(out: &mut Out, world: &mut World, line: &str, rtm: &tokio::runtime::Runt
             }
         }
         "twin" => {
-            // twin <idx> <kind> <id> <qf> <query> <stale q len> <stale b len> <element bytes>: documented twins —
-            // write_message_typed_slice / _complex_slice == builder.body_typed_slice / _complex_slice + write_message
+            // twin <idx> <kind> <11 header fields> <query> <element bytes> <payload>: the streamed slice writers with ANY header
+            // argument (every field over its boundary classes: pre-set lengths, formats, ec, notify, reserved, id).
+            // Documented: body_format is set to BEVE, the three lengths are filled in, "the bytes on the wire are identical
+            // to a MessageBuilder::body_typed_slice message written with write_message".
             let ops = vec![line.to_string()];
             let kind = w[2];
-            let id: u64 = w[3].parse().unwrap();
-            let qf: u16 = w[4].parse().unwrap();
-            let q = unhex(w[5]).unwrap();
-            let (sq, sb): (u64, u64) = (w[6].parse().unwrap(), w[7].parse().unwrap());
-            let raw = unhex(w[8]).unwrap();
-            let mut h = Header::new();
-            h.id = id;
-            h.query_format = qf;
-            h.query_length = sq; // stale lengths the writer must overwrite
-            h.body_length = sb;
-            h.length = sq.wrapping_mul(3);
-            let bld = || Message::builder().id(id).query_format_code(qf).query_bytes(q.clone());
+            let rh = parse_header_words(&w[3..14]).expect("twin header");
+            let q = unhex(w[14]).unwrap();
+            let raw = unhex(w[15]).unwrap();
+            let h = rh.to_repe();
             let mut streamed = MoodySink::new(9, true);
-            let (res, built) = match kind {
+            let mut streamed2 = MoodySink::new(1000, false);
+            // the same call once more with a header the builder can express (fresh header + id + query format): twins
+            let mut hb = Header::new();
+            hb.id = rh.id;
+            hb.query_format = rh.query_format;
+            hb.query_length = rh.query_length; // stale lengths the writer must overwrite
+            hb.body_length = rh.body_length;
+            hb.length = rh.length;
+            let bld = || Message::builder().id(rh.id).query_format_code(rh.query_format).query_bytes(q.clone());
+            let (res, res2, built) = match kind {
                 "f64" => {
                     let xs: Vec<f64> = raw.chunks_exact(8).map(|c| f64::from_le_bytes(c.try_into().unwrap())).collect();
-                    (repe::write_message_typed_slice(&mut streamed, h, &q, &xs), bld().body_typed_slice(&xs).build())
+                    (repe::write_message_typed_slice(&mut streamed, h, &q, &xs), repe::write_message_typed_slice(&mut streamed2, hb, &q, &xs), bld().body_typed_slice(&xs).build())
                 }
                 "i32" => {
                     let xs: Vec<i32> = raw.chunks_exact(4).map(|c| i32::from_le_bytes(c.try_into().unwrap())).collect();
-                    (repe::write_message_typed_slice(&mut streamed, h, &q, &xs), bld().body_typed_slice(&xs).build())
+                    (repe::write_message_typed_slice(&mut streamed, h, &q, &xs), repe::write_message_typed_slice(&mut streamed2, hb, &q, &xs), bld().body_typed_slice(&xs).build())
                 }
-                "u8" => (repe::write_message_typed_slice(&mut streamed, h, &q, &raw[..]), bld().body_typed_slice(&raw[..]).build()),
+                "u8" => (repe::write_message_typed_slice(&mut streamed, h, &q, &raw[..]), repe::write_message_typed_slice(&mut streamed2, hb, &q, &raw[..]), bld().body_typed_slice(&raw[..]).build()),
                 _ => {
                     let xs: Vec<repe::Complex<f32>> = raw.chunks_exact(8).map(|c| repe::Complex { re: f32::from_le_bytes(c[..4].try_into().unwrap()), im: f32::from_le_bytes(c[4..].try_into().unwrap()) }).collect();
-                    (repe::write_message_complex_slice(&mut streamed, h, &q, &xs), bld().body_complex_slice(&xs).build())
+                    (repe::write_message_complex_slice(&mut streamed, h, &q, &xs), repe::write_message_complex_slice(&mut streamed2, hb, &q, &xs), bld().body_complex_slice(&xs).build())
                 }
             };
+            // independent expectation: the header as given, lengths patched, body format BEVE, then query, then the payload
+            let mut ph = rh.clone();
+            ph.query_length = q.len() as u64;
+            ph.body_length = built.body.len() as u64;
+            ph.length = 48 + q.len() as u64 + built.body.len() as u64;
+            ph.body_format = 1;
+            let want = RawFrame { h: ph, query: q.clone(), body: built.body.clone() }.to_vec();
+            if res.is_err() || streamed.out != want {
+                out.oracle_fail(&format!("wire.slice_writer.{}.header_argument", kind), &format!("streamed slice writer given a header with body_format {} / lengths {} {} {}: the frame is not that header with the lengths filled in and body_format BEVE (ok {})", rh.body_format, rh.length, rh.query_length, rh.body_length, res.is_ok()), &ops);
+            }
             let mut buffered = Vec::new();
             repe::write_message(&mut buffered, &built).unwrap();
-            let whole = matches!(RawFrame::parse_prefix(&streamed.out), Some((ref f, n)) if n == streamed.out.len() && f.query == q);
-            let same_frame = streamed.out == buffered && built.clone().into_wire_bytes() == buffered;
-            if res.is_err() || !whole || !same_frame {
-                out.oracle_fail(&format!("wire.twin.{}", kind), &format!("streamed slice writer vs builder + write_message: ok {} whole-frame {} identical {}", res.is_ok(), whole, same_frame), &ops);
+            let same_frame = streamed2.out == buffered && built.clone().into_wire_bytes() == buffered;
+            if res2.is_err() || !same_frame {
+                out.oracle_fail(&format!("wire.twin.{}", kind), &format!("streamed slice writer vs builder + write_message: ok {} identical {}", res2.is_ok(), same_frame), &ops);
             }
             out.count(&format!("wire.twin.{}", kind));
-            (format!("{} {}", idx, if same_frame { "=".to_string() } else { hex(&streamed.out) }), true)
+            (format!("{} {}", idx, hex(&streamed.out)), true)
         }
         "cb" => {
             // cb <idx> <behaviour> <11 header fields> <query> <body>: write_message_streaming with a body callback that
@@ -1004,7 +1016,21 @@ fn gen_aux(r: &mut Rng, ops: &mut Vec<String>, i: usize, h: &RawHeader, q: &[u8]
     let unit = match kind { "f64" | "c32" => 8, "i32" => 4, _ => 1 };
     let count = *r.pick(&[0usize, 1, 2, 3, 63, 64, 65, 1000]);
     let raw = r.bytes(unit * count);
-    ops.push(format!("twin {}t {} {} {} {} {} {} {}", i, kind, r.boundary(64), *r.pick(&[0u16, 1, 7, 65535]), hex(&gen_query(r)), r.boundary(64), r.boundary(64), hex(&raw)));
+    // the header ARGUMENT over every field's boundary classes: a fresh header, one copied from a JSON / UTF-8 / custom-format
+    // message, stale lengths, error code, notify, reserved, any version
+    let mut th = h.clone();
+    let any_bf = r.boundary(16) as u16;
+    th.body_format = *r.pick(&[0u16, 0, 1, 2, 3, 0x1001, 0xFFFF, any_bf]);
+    th.query_format = *r.pick(&[0u16, 1, 7, 65535]);
+    if r.chance(1, 3) { th.spec = 0x1507; th.version = 1; th.notify = 0; th.reserved = 0; th.ec = 0; }
+    let tq = gen_query(r);
+    let payload = match kind {
+        "f64" => Message::builder().body_typed_slice(&raw.chunks_exact(8).map(|c| f64::from_le_bytes(c.try_into().unwrap())).collect::<Vec<f64>>()).build().body,
+        "i32" => Message::builder().body_typed_slice(&raw.chunks_exact(4).map(|c| i32::from_le_bytes(c.try_into().unwrap())).collect::<Vec<i32>>()).build().body,
+        "u8" => Message::builder().body_typed_slice(&raw[..]).build().body,
+        _ => Message::builder().body_complex_slice(&raw.chunks_exact(8).map(|c| repe::Complex { re: f32::from_le_bytes(c[..4].try_into().unwrap()), im: f32::from_le_bytes(c[4..].try_into().unwrap()) }).collect::<Vec<repe::Complex<f32>>>()).build().body,
+    };
+    ops.push(format!("twin {}t {} {} {} {} {}", i, kind, th.fields(), hex(&tq), hex(&raw), hex(&payload)));
     let beh = *r.pick(&["plain", "err_io", "err_repe", "panic_str", "panic_string", "panic_other", "slow", "nested"]);
     ops.push(format!("cb {}c {} {} {} {}", i, beh, h.fields(), hex(q), hex(&b[..b.len().min(300)])));
 }
